@@ -20,6 +20,14 @@ PROBE_C = r'''
 #include <stdio.h>
 #define STR(x) #x
 #define XSTR(x) STR(x)
+#if defined(__has_include)
+#  if __has_include("incprobe.h")
+#    include "incprobe.h"
+#  endif
+#  if __has_include("sysprobe.h")
+#    include "sysprobe.h"
+#  endif
+#endif
 #ifdef __cplusplus
 extern "C"
 #endif
@@ -64,6 +72,12 @@ int main(void) {
 #else
     printf("PCH=0\n");
 #endif
+#ifdef INC_PROBE
+    printf("INC=%d\n", INC_PROBE);
+#endif
+#ifdef SYS_PROBE
+    printf("SYSINC=%d\n", SYS_PROBE);
+#endif
 #ifdef GLOBAL_PLAIN
     printf("GLOBAL_PLAIN=1\n");
 #endif
@@ -92,6 +106,11 @@ LIBMAIN_C = r'''
 int lib_pic(void);
 int main(void) { printf("PIC=%d\n", lib_pic()); return 0; }
 '''
+# header directories for include_dir: the "system" one is not warning-clean, which only a
+# system include directory (-isystem) hides
+INC_FILES = {'inc/incprobe.h': '#define INC_PROBE 7\n',
+             'sysinc/sysprobe.h': '#define SYS_PROBE 1\nstatic inline int sysprobe_is_not_clean(void) '
+                                  '{ int x = 5; return x << 33; }\n'}
 PROBE_F = "program p\n  print *, 'FORTRAN_OK'\nend program p\n"
 
 # (key, family, placement kind, script expression, checker name, languages)
@@ -122,6 +141,9 @@ def option_table(lang):
     add('sanitize', 'sanitize', 'cA', "opts.sanitize()", ('fact', 'ASAN', '1'))
     add('static', 'static', 'l', "opts.static()", ('static',))
     add('entry_point', 'entry', 'l', "opts.entry_point('altmain')", ('entry', 'altmain'))
+    add('include_dir', 'include', 'c', "opts.include_dir(header_directory('inc'))", ('fact', 'INC', '7'))
+    add('include_dir,system', 'sysinclude', 'c', "opts.include_dir(header_directory('sysinc', system=True))",
+        ('sysinc',))
     return t
 
 
@@ -204,6 +226,11 @@ def check_effect(entry, rc, out, facts, bld, name, cc):
     if c[0] == 'facts':
         bad = [(k, facts.get(k), v) for k, v in c[1] if facts.get(k) != v]
         return None if not bad else 'facts %r' % bad
+    if c[0] == 'sysinc':
+        if facts.get('SYSINC') != '1':
+            return 'the system include directory is not searched: SYSINC is %r' % facts.get('SYSINC')
+        return None if 'sysprobe_is_not_clean' not in out else \
+            'warnings from a system=True header directory are not suppressed (not passed as a system directory)'
     if c[0] == 'warns':
         return None if c[1] in out else 'no %r warning in the compiler output' % c[1]
     if c[0] == 'nowarn':
@@ -261,7 +288,7 @@ def _shard(arg):
             lines.append(target_line(i, [table[k] for k in keys], 'probe.' + ext))
             cases.append((i, keys))
         os.makedirs(src)
-        bfg.write_tree(src, {'build.bfg': '\n'.join(lines) + '\n', 'probe.' + ext: PROBE_C})
+        bfg.write_tree(src, dict(INC_FILES, **{'build.bfg': '\n'.join(lines) + '\n', 'probe.' + ext: PROBE_C}))
         env = bfg.base_env(extra=envx)
         r = bfg.configure(src, bld, 'make', env)
         if r.rc != 0:
@@ -292,7 +319,7 @@ def _shard(arg):
             shutil.rmtree(src, ignore_errors=True)
             shutil.rmtree(bld, ignore_errors=True)
             os.makedirs(src)
-            bfg.write_tree(src, {'build.bfg': script, 'probe.' + ext: PROBE_C})
+            bfg.write_tree(src, dict(INC_FILES, **{'build.bfg': script, 'probe.' + ext: PROBE_C}))
             env = bfg.base_env(extra=envx)
             r = bfg.configure(src, bld, 'make', env)
             if r.rc != 0:
@@ -366,7 +393,7 @@ def groups_for(lang, pairs):
             kinds = (a['check'][0], b['check'][0])
             if 'fails' in kinds:
                 continue        # the build is meant to fail: nothing else is observable
-            if 'entry' in kinds and any(k in ('fact', 'facts') for k in kinds):
+            if 'entry' in kinds and any(k in ('fact', 'facts', 'sysinc') for k in kinds):
                 continue        # a program entered at altmain prints no facts
             out.append((a['key'], b['key']))
     return out
